@@ -112,6 +112,8 @@ class CommandShowTitles : public DFS::CommandInterface
       {
 	if (!show_title(storage, surface, error))
 	  {
+	    if (!error.empty())
+	      DFS::failed_to_mount_surface(std::cerr, surface, error);
 	    ok = false;
 	  }
       }
